@@ -215,6 +215,8 @@ def operator_sweep(mode: str, version: int, thorough: bool = False) -> List[Tupl
         if version >= mv:
             e = E()
             add("op:" + name, e.observe_b(("Un", name, e.tagged(e.b()))), {"lens": (0, 2)})
+    if version >= 5 and mode == "A":
+        out.extend(wideratio_compound(mode, version, thorough))
     # nested operands (pending operands on the stack while evaluating a deeper one)
     e = E()
     add("op:nest1", e.observe_u(("Bin", "Minus", ("Bin", "Add", e.tagged(e.u()), e.tagged(e.u())),
@@ -223,6 +225,36 @@ def operator_sweep(mode: str, version: int, thorough: bool = False) -> List[Tupl
     add("op:nest2", e.observe_u(("Bin", "Lt", ("Un", "Len", ("Nary", "Concat", e.tagged(e.b()), e.tagged(e.b()))),
                                  ("Bin", "Mod", e.tagged(e.u()), ("Bin", "BitwiseOr", e.tagged(e.u()), ("Int", 1))))),
         {"lens": (0, 2)})
+    return out
+
+
+def wideratio_compound(mode: str, version: int, thorough: bool = False):
+    """WideRatio whose factors have their own code (several blocks, side effects) at every list
+    position; factor VALUES are concrete or depend on a symbolic condition only, so the wide
+    arithmetic itself stays cheap (the all-values arithmetic is C16's segment contracts)"""
+    out = []
+    M = 2 ** 64 - 1
+
+    def shapes(e, k):
+        return [("Int", 3 + k), e.tagged(("Int", 5 + k), 30 + k), ("Bin", "Add", ("Int", 2 + k), ("Int", 4)),
+                ("If", e.u(k % 5), ("Int", 7 + k), ("Int", M)), ("Seq", ("Assert", e.u((k + 1) % 5)), ("Int", 2 + k))]
+    for nn, nd in [(1, 2), (2, 1), (2, 2), (3, 1), (3, 2), (1, 3), (3, 3), (4, 2), (2, 4)]:
+        for variant in range(5):
+            e = Env(mode, version)
+            ns = [shapes(e, i)[(i + variant) % 5] for i in range(nn)]
+            ds = [shapes(e, i + 3)[(i + variant + 2) % 5] for i in range(nd)]
+            out.append(("op:WideRatio:%dx%d:%d" % (nn, nd, variant),
+                        prog(mode, ("Seq", e.tag(60), e.observe_u(("Bin", "Minus", ("WideRatio", tuple(ns), tuple(ds)), ("Int", 0))))), {}))
+    # one fully symbolic factor among small constants (wide arithmetic with one unknown; ~1 min each)
+    if not thorough:
+        return out
+    for pos in range(3):
+        e = Env(mode, version)
+        ns = [("Int", 6), ("Int", M), ("Bin", "Add", ("Int", 1), ("Int", 1))]
+        ns[pos] = e.u(0)
+        out.append(("op:WideRatio:sym-num%d" % pos, prog(mode, e.observe_u(("WideRatio", tuple(ns), (("Int", 4), ("Int", 3))))), {}))
+    e = Env(mode, version)
+    out.append(("op:WideRatio:sym-den", prog(mode, e.observe_u(("WideRatio", (("Int", M), ("Int", 10)), (e.u(0), ("Bin", "Add", ("Int", 1), ("Int", 2)))))), {}))
     return out
 
 
